@@ -293,26 +293,42 @@ def numerics(ctx):
 
 
 def propagate_drift(ctx):
-    """Energy drift along real propagations (every method), reported relative to tolerance; spatial states."""
+    """Energy drift along real propagations (every method), reported relative to tolerance; spatial states.
+    Two different mass parameters are propagated one after the other through systems with the same (default) name:
+    the mu baked into each compiled rhs closure must be the one of the system that is propagated."""
     from hiten.algorithms.common import energy as en
     from hiten.algorithms.dynamics.base import _propagate_dynsys
     from hiten.algorithms.dynamics import rtbp
-    mu = 0.0121505856
     cases = [("adaptive", 8), ("adaptive", 5), ("fixed", 8), ("fixed", 6), ("fixed", 4)]
     if not ctx.thorough():
         cases = [("adaptive", 8), ("fixed", 8), ("fixed", 4)]
     s0 = np.array([0.82, 0.05, 0.1, 0.02, 0.15, 0.07])
     worst = {}
-    for meth, order in cases:
-        for fwd in (1, -1):
-            sol = _propagate_dynsys(rtbp.rtbp_dynsys(mu), s0, 0.0, 1.0, forward=fwd, steps=2001, method=meth, order=order)
-            Es = np.array([en.crtbp_energy(y, mu) for y in sol.states[::50]])
-            drift = float(np.abs(Es - Es[0]).max())
-            worst["%s%d%+d" % (meth, order, fwd)] = drift
-            ctx.case(("prop", meth, order, fwd), kind="propagate")
-            # scale-aware: |E|~1.5; all these methods at these steps are accurate to <=1e-7; a non-integral drifts by >=1e-3
-            if not drift <= 1e-6:
-                ctx.violation("energy-drift:%s%d" % (meth, order), "energy drifts by %g along %s order %d propagation (forward=%d)" % (drift, meth, order, fwd),
-                              {"mu": mu, "state0": list(s0), "tf": 1.0, "method": meth, "order": order, "forward": fwd, "drift": drift})
-                return
+    for mi, mu in enumerate((0.0121505856, 0.3)):
+        sysm = rtbp.rtbp_dynsys(mu)
+        varm = rtbp.variational_dynsys(mu)
+        for meth, order in (cases if mi == 0 else cases[:1]):
+            for fwd in (1, -1):
+                sol = _propagate_dynsys(sysm, s0, 0.0, 1.0, forward=fwd, steps=2001, method=meth, order=order)
+                Es = np.array([en.crtbp_energy(y, mu) for y in sol.states[::50]])
+                drift = float(np.abs(Es - Es[0]).max())
+                worst["mu%d:%s%d%+d" % (mi, meth, order, fwd)] = drift
+                ctx.case(("prop", mi, meth, order, fwd), kind="propagate")
+                # scale-aware: |E|~1.5; all these methods at these steps are accurate to <=1e-7; a non-integral drifts by >=1e-3
+                if not drift <= 1e-6:
+                    ctx.violation("energy-drift:%s%d" % (meth, order), "energy drifts by %g along %s order %d propagation (forward=%d, mu=%g)" % (drift, meth, order, fwd, mu),
+                                  {"mu": mu, "state0": list(s0), "tf": 1.0, "method": meth, "order": order, "forward": fwd, "drift": drift,
+                                   "note": "systems are propagated in the order mu=0.0121505856, mu=0.3 within one process"})
+                    return
+        # the state part of the variational system follows the same trajectory and conserves the same integral
+        PHI0 = np.concatenate([np.eye(6).ravel(), s0])
+        solv = _propagate_dynsys(varm, PHI0, 0.0, 1.0, forward=1, steps=401, method="adaptive", order=8)
+        xs = solv.states[:, 36:42]
+        Es = np.array([en.crtbp_energy(y, mu) for y in xs[::20]])
+        drift = float(np.abs(Es - Es[0]).max())
+        ctx.case(("prop-var", mi), kind="propagate")
+        if not drift <= 1e-6:
+            ctx.violation("energy-drift:variational", "energy drifts by %g along the state part of the variational system (mu=%g)" % (drift, mu),
+                          {"mu": mu, "state0": list(s0), "tf": 1.0, "drift": drift})
+            return
     ctx.extra["energy_drift"] = worst
